@@ -57,6 +57,20 @@ theorem frames_expect (T : Tables) (o : Opts) (items : List SItem) :
     | nmea t body => rfl
     | ubx => rfl
 
+/-- the talker initials the reader skips as NMEA are the pinned ones
+    (`$V $M $P $B $D $I $L $G $F $S $H $R $E $Y $A $C $Z $T $W`), in any order -/
+def nmeaPinned : List (Nat × Nat) :=
+  [86, 77, 80, 66, 68, 73, 76, 71, 70, 83, 72, 82, 69, 89, 65, 67, 90, 84, 87].map fun c => (36, c)
+
+theorem C02_nmea_talkers_pinned :
+    (T2.nmeaHdr.all fun e => nmeaPinned.contains e) = true ∧ (nmeaPinned.all fun e => T2.nmeaHdr.contains e) = true := by
+  decide +kernel
+
+/-- the protocol constants the reader dispatches on -/
+theorem C02_protocol_constants :
+    T2.ubxHdr = (0xb5, 0x62) ∧ T2.rtcmHdr = 0xd3 ∧ T2.valcksum = 1 ∧ T2.errRaise = 2 ∧ T2.errLog = 1 := by
+  decide +kernel
+
 /-- **Main theorem.**  Iterating the reader over any well-formed mixed stream returns every
     deliverable RTCM3 frame exactly once, byte for byte, in stream order — in every error mode (the
     iteration resumes after a raised error) — and then stops cleanly. -/
